@@ -349,6 +349,10 @@ def cases(draw, signed=None):
     share = draw(st.sampled_from(["distinct", "distinct", "same-tx", "mixed"]))
     for i in range(nu):
         sat = draw(st.one_of(st.sampled_from(MISROUND), st.integers(546, 10**9), st.integers(546, 21 * 10**14 // 8)))
+        # the whole UTXO set stays within the money supply (21e14 sat): beyond it a node's 8-decimal float amounts
+        # are no longer exactly recoverable, and such a set cannot exist
+        room = 21 * 10**14 - sum(u["sat"] for u in utxos) - 546 * (nu - i - 1)
+        sat = max(546, min(sat, room))
         txid = hashlib.sha256(draw(st.binary(min_size=4, max_size=4)) + bytes([i])).hexdigest()
         if utxos and (share == "same-tx" or (share == "mixed" and draw(st.booleans()))):
             txid = utxos[draw(st.integers(0, len(utxos) - 1))]["txid"]  # another output of an already listed transaction
